@@ -1,5 +1,5 @@
-(* Concrete reports computed by the model (vm_compute): the witness of the skip-zero / summary
-   disagreement, and a worked example showing that the hypotheses of the C10 theorems are
+(* Concrete reports computed by the model (vm_compute): the witness of the IPython-cell row
+   loss, and a worked example showing that the hypotheses of the C10 theorems are
    satisfiable and what the rendered text looks like. *)
 From Coq Require Import QArith.
 From LP Require Import Prelude.Py Report.LayoutStr Report.Layout Report.LayoutProofs Report.Cells.
@@ -19,33 +19,9 @@ Definition ex_env : env :=
 Definition ex_opts : options := mkOpts true false true true.   (* stripzeros, summarize, details *)
 
 (* stripzeros + summarize: "fast" was hit 1234567890 times in 0 timer units.  Its details are
-   printed (total hits <> 0) but it has no summary line (total time * unit is falsy). *)
-Theorem skipzero_summary_witness :
-  exists (st : stats) (k : key) (tm : list timing) (unit : Q) (E : env) (o : options),
-    NoDup (map fst st) /\ In (k, tm) st /\ NoDup (map t_line tm)
-    /\ (forall t, In t tm -> 1 <= t_hits t /\ 0 <= t_time t)
-    /\ o_stripzeros o = true /\ o_summarize o = true /\ o_details o = true
-    /\ 0 < total_hits tm
-    /\ In k (map b_key (rp_blocks (show_text_py unit None E o st)))
-    /\ ~ In k (map fst (rp_summary (show_text_py unit None E o st))).
-Proof.
-  exists ex_st, ("zero.py", 1, "fast"), [(2, 1234567890, 0)], u6, ex_env, ex_opts.
-  split; [|split; [|split; [|split; [|split; [|split; [|split; [|split; [|split]]]]]]]].
-  - repeat constructor; cbn; intuition discriminate.
-  - right. left. reflexivity.
-  - repeat constructor. intros [].
-  - intros t [<-|[]]. cbn. lia.
-  - reflexivity.
-  - reflexivity.
-  - reflexivity.
-  - reflexivity.
-  - vm_compute. left. reflexivity.
-  - vm_compute. intros [H|[]]. discriminate.
-Qed.
-
-(* the whole text of that report, as the model renders it (and as the real show_text prints
-   it: this very case is the canonical replay findings/C10-skipzero-summary-filters-on-time.json,
-   compared with the implementation on every run) *)
+   printed AND it has its summary line (before /repo commit 49eff24 the summary line was missing:
+   the summary was filtered on total time, the details on total hits).  The whole text, as the
+   model renders it: *)
 Theorem example_report :
   NoDup (map fst ex_st)
   /\ Forall (fun e => NoDup (map t_line (snd e)) /\ Forall (fun t => 1 <= t_hits t) (snd e)) ex_st
@@ -65,6 +41,7 @@ Theorem example_report :
       "==============================================================";
       "     4                                           def slow(x):";
       "     5         3       7000.0   2333.3    100.0      return x + 1"; "";
+      "  0.00 seconds - zero.py:1 - fast";
       "  0.01 seconds - zero.py:4 - slow"].
 Proof.
   split; [|split].
